@@ -86,6 +86,8 @@ func C14(ctx *core.Ctx, r *core.Report) {
 	c14ModuleXorError(ctx, r)
 	c14GuardBacking(ctx, r)
 	c14WorklistGuard(ctx, r)
+	c14EveryBaseCompiled(ctx, r)
+	c14AnyRejectedByDeviationCheck(ctx, r)
 	// an import of a submodule that is not merged is never resolved: its module stays nil
 	c01SubmoduleMergeComplete(ctx, r)
 	c14Recursion(ctx, r, roots)
